@@ -371,6 +371,10 @@ impl Gen {
                 QueryServiceInfo { serial: self.next_serial(c), cookie: self.pick_svc_cookie(m, None) }.into()
             }
             Op::Call | Op::CallDupSerial => {
+                // most calls should reach a live service
+                if m.svcs.is_empty() && self.rng.chance(9, 10) {
+                    return None;
+                }
                 let service_cookie = self.pick_svc_cookie(m, None);
                 let serial = if op == Op::CallDupSerial {
                     match m.conns[c].calls.keys().next() {
